@@ -6,6 +6,8 @@ open Vx
 open BinNums
 open Base
 open C16Model
+open C15Model
+open C16ParseModel
 
 let nalus_string (l : coq_N list list) : string =
   match l with [] -> "[]" | _ -> S.concat "," (L.map hex_of_bytes l)
@@ -22,8 +24,63 @@ let show (f : 'a -> string) (r : ('a * coq_N) res) : string * string =
   | Panic -> ("panic", "")
   | OutOfFuel -> ("hang", "")
 
+(* ---- stage 2: the AVC parameter-set / slice-header parsers (C16ParseModel over C15Model).
+   The reference parameter sets arrive in CTX lines and are parsed by the model itself. *)
+let ctx_sps : sps list ref = ref []
+let ctx_pps : pps list ref = ref []
+
+let set_ctx (kind : string) (hexes : string) : unit =
+  let units = L.map bytes_of_hex (split_on ',' hexes) in
+  match kind with
+  | "avcsps" ->
+    ctx_sps := L.concat (L.map (fun u -> match c16_parse_sps true u with Ok s -> [s] | _ -> []) units)
+  | "avcpps" ->
+    ctx_pps := L.concat (L.map (fun u -> match c16_parse_pps (chroma_lookup !ctx_sps) u with Ok p -> [p] | _ -> []) units)
+  | _ -> ()
+
+let hexs (l : coq_N list) : string = S.concat "," (L.map hex_of_n l)
+let len_n (l : 'a list) : coq_N = n_of_int (L.length l)
+
+let show1 (f : 'a -> string) (r : 'a res) : string * string =
+  match r with
+  | Ok v -> ("ok", f v)
+  | Err -> ("err", "")
+  | Panic -> ("panic", "")
+  | OutOfFuel -> ("hang", "")
+
+let sps_string (s : sps) : string =
+  hexs [s.sps_id; s.sps_width; s.sps_height; s.sps_nr_bytes_read; len_n s.sps_ref_frames_in_poc_cycle;
+        len_n s.sps_seq_scaling_lists]
+let pps_string (p : pps) : string =
+  hexs [p.pps_id; p.pps_sps_id; p.pps_num_slice_groups_minus1; len_n p.pps_slice_group_id;
+        len_n p.pps_run_length_minus1; p.pps_num_ref_idx_l0_default_active_minus1; len_n p.pps_pic_scaling_lists]
+let slice_string (h : slice_hdr) : string =
+  hexs [h.sh_slice_type; h.sh_frame_num; h.sh_size;
+        h.sh_num_ref_idx_l0_active_minus1; h.sh_num_ref_idx_l1_active_minus1; h.sh_pic_param_id]
+
+(* in = len1 a[len1] len2 b[len2] rest, lengths clipped to what is there (harness split3) *)
+let split3 (bs : coq_N list) : coq_N list * coq_N list * coq_N list =
+  let cut x = match x with
+    | [] -> ([], [])
+    | n :: t ->
+      let n = int_of_n n in
+      let rec take k l acc = if k = 0 then (L.rev acc, l) else
+          match l with [] -> (L.rev acc, []) | y :: r -> take (k - 1) r (y :: acc) in
+      take n t [] in
+  let (a, r1) = cut bs in
+  let (b, r2) = cut r1 in
+  (a, b, r2)
+
 let run (fn : string) (bs : coq_N list) (arg : int) : string * string =
   match fn with
+  | "avc.ParseSPSNALUnit" -> show1 sps_string (c16_parse_sps (arg land 1 = 1) bs)
+  | "avc.ParsePPSNALUnit" -> show1 pps_string (c16_parse_pps (chroma_lookup !ctx_sps) bs)
+  | "avc.ParseSliceHeader" -> show1 slice_string (c16_parse_slice (sps_lookup !ctx_sps) (pps_lookup !ctx_pps) bs)
+  | "avc.ParsePSAndSlice" ->
+    let (a, b, rest) = split3 bs in
+    let spss = !ctx_sps @ (match c16_parse_sps true a with Ok s -> [s] | _ -> []) in
+    let ppss = !ctx_pps @ (match c16_parse_pps (chroma_lookup spss) b with Ok p -> [p] | _ -> []) in
+    show1 slice_string (c16_parse_slice (sps_lookup spss) (pps_lookup ppss) rest)
   | "avc.GetNalusFromSample" -> show nalus_string (avc_get_nalus_from_sample bs)
   | "avc.FindNaluTypes" -> show types_string (avc_find_nalu_types bs)
   | "avc.FindNaluTypesUpToFirstVideoNALU" -> show types_string (avc_find_nalu_types_upto bs)
@@ -64,4 +121,5 @@ let () =
         let (mc, mv) = run fn (bytes_of_hex inhex) (int_of_string arg) in
         if mc = cls && (cls <> "ok" || mv = value) then Printf.printf "OK %s\n" id
         else Printf.printf "MISMATCH %s %s model=%s/%s\n" id fn mc mv
+      | ["CTX"; kind; hexes] -> set_ctx kind hexes
       | _ -> Printf.printf "BADLINE %s\n" line)
